@@ -126,6 +126,16 @@ fn table() -> Vec<(&'static str, Check)> {
             let dbg = format!("{:?}", res.program());
             (dbg.contains("ImaginaryInt") && dbg.contains("ty: Int(Some(64), True)"), format!("ASG of `3im;`: {}", dbg))
         }),
+        ("C08-decl-silent", || {
+            let res = oq3_semantics::syntax_to_semantics::parse_source_string("const int[16] n = 5; int[8] y = n;", None);
+            let dbg = format!("{:?}", res.program().stmts().last());
+            (res.semantic_errors().len() == 0 && !dbg.contains("Cast("), format!("`const int[16] n = 5; int[8] y = n;`: {} diagnostics, last stmt {}", res.semantic_errors().len(), dbg))
+        }),
+        ("C08-assign-int-literal-silent", || {
+            let res = oq3_semantics::syntax_to_semantics::parse_source_string("duration d; d = 1;", None);
+            let dbg = format!("{:?}", res.program().stmts().last());
+            (res.semantic_errors().len() == 0 && !dbg.contains("Cast("), format!("`duration d; d = 1;`: {} diagnostics, last stmt {}", res.semantic_errors().len(), dbg))
+        }),
         ("C09-width-truncation", || {
             let res = oq3_semantics::syntax_to_semantics::parse_source_string("int[4294967297] x;", None);
             let dbg = format!("{:?}", res.symbol_table());
